@@ -8,6 +8,7 @@ open FlattenModel
 open PruneModel
 open CodecModel
 open ChronoModel
+open DagSpec
 module L = Stdlib.List
 
 let zs = Zio.z_of_string and sz = Zio.string_of_z
@@ -119,6 +120,7 @@ let () =
     (match !tree with
      | None -> print_string "NOTREE\n"
      | Some t ->
+       Printf.printf "WFTREE %b\n" (wf_root t);
        (match entries_stack t with
         | Some es when es = entries t -> print_string "STACK same\n"
         | Some _ -> print_string "STACK differ\n"
